@@ -211,7 +211,7 @@ def step (s : State) (ws : List String) : State × String :=
     | none => (s, "bad-op")
   | ["id", "file", n] =>
     match parseName n with
-    | some n => (s, String.ofList ((fileId sha256 n).map (fun b => Char.ofNat b.toNat)))
+    | some n => (s, String.ofList ((fileId sha256 pathFacts n).map (fun b => Char.ofNat b.toNat)))
     | none => (s, "bad-op")
   | "id" :: "cdp" :: items =>
     match mapOpt parseCdp items with
